@@ -12,7 +12,7 @@ SHRINK = False
 
 
 def generate(rng, tier):
-    n = dict(quick=40, thorough=2500, search=400)[tier]
+    n = dict(quick=40, thorough=20000, search=400)[tier]
     cases, idx = [], 0
     for s in range(n):
         lines = ['case %d group' % idx]
